@@ -148,6 +148,10 @@ def generate(rng, tier):
             A("bsm.tamper", kb(d), c, "48656c6c6f", pre, "c", 0)
             A("bsm.tamper", kb(d), c, "48656c6c6f", pre, "k", d + 1 if d < 2 ** 40 else 7)
             A("bsm.tamper", kb(d), c, "48656c6c6f", pre, "p", [0x00, 0x6f, 0x05, 0x90, 0xff][(j + 1) % 5])
+    # --- call histories on the address / key objects (positive): own -> prefix i -> mainnet -> p ; derive, switch flag, sign
+    for j, pre in enumerate(pfx_classes):
+        A("bsm.tamper", kb([KT, 182, 153][j % 3]), j % 2, "48656c6c6f", pre, "q", [0x6f, 0x00, 0x90, 0x05, 0xff][j])
+        A("bsm.tamper", kb([KT, 182, 153][(j + 1) % 3]), (j + 1) % 2, "48656c6c6f", pre, "o", 0)
     # --- length bands of the message: every length-prefix class boundary and low bytes that look like prefixes (sign only: cheap)
     for n in [251, 255, 256, 257, 508, 509, 510, 511, 512, 0xfd + 256, 0xffff - 1]:
         A("bsm.sign", kb(KT), n % 2, "l:%d:%d" % (n, n))
